@@ -115,6 +115,10 @@ def sentinels(ctx, col):
             stores = [n for n in own_nodes(d) if isinstance(n, ast.Assign) and isinstance(n.targets[0], ast.Subscript)
                       and norm_src(n.targets[0].value) == "df.loc" and "names.pid" in norm_src(n.targets[0].slice)]
             ok = bool(stores) and any(isinstance(n, ast.Expr) and norm_src(n.value) == "next(roots)" for n in own_nodes(d))
+            if not stores:
+                col.unresolved("R-SENT", d.qualname, d.loc(), "only the other roots get a parent; the first root keeps -1",
+                               "no store to the parent column recognised (the column name may be held in a local)", stmt="rowwise")
+                continue
             col.check(ok, "R-SENT", d.qualname, d.loc(stores[0]) if stores else d.loc(),
                       "only the other roots get a parent; the first root keeps -1",
                       norm_src(stores[0]) if stores else "", "first root is not skipped before re-linking", stmt="rowwise")
